@@ -4,8 +4,10 @@ package main
 // dominance / edge dominance, post-dominance, callee resolution.
 
 import (
+	"fmt"
 	"go/token"
 	"go/types"
+	"sort"
 	"strings"
 
 	"golang.org/x/tools/go/ssa"
@@ -987,4 +989,234 @@ func controlConds(b *ssa.BasicBlock) []ssa.Value {
 	}
 	walk(b)
 	return out
+}
+
+// ---------------------------------------------------------------------------
+// Path conditions: the branch outcomes along every acyclic CFG path from the entry of fn to an instruction.
+
+// pathsTo enumerates the acyclic paths from the entry block to the block of target; each path is the list of
+// (If condition, outcome) pairs taken, decomposed into atomic facts. ok=false if more than max paths exist.
+func pathsTo(fn *ssa.Function, target ssa.Instruction, max int) (paths [][]fact, ok bool) {
+	tb := target.Block()
+	onPath := map[*ssa.BasicBlock]bool{}
+	// blocks from which tb is reachable (prune)
+	reach := map[*ssa.BasicBlock]bool{tb: true}
+	for changed := true; changed; {
+		changed = false
+		for _, b := range fn.Blocks {
+			if reach[b] {
+				continue
+			}
+			for _, s := range b.Succs {
+				if reach[s] {
+					reach[b] = true
+					changed = true
+					break
+				}
+			}
+		}
+	}
+	ok = true
+	var cur []fact
+	var walk func(b *ssa.BasicBlock)
+	walk = func(b *ssa.BasicBlock) {
+		if !ok || !reach[b] || onPath[b] {
+			return
+		}
+		if b == tb {
+			if len(paths) >= max {
+				ok = false
+				return
+			}
+			paths = append(paths, append([]fact{}, cur...))
+			return
+		}
+		onPath[b] = true
+		defer func() { onPath[b] = false }()
+		if iff, isIf := b.Instrs[len(b.Instrs)-1].(*ssa.If); isIf && len(b.Succs) == 2 {
+			for i, s := range b.Succs {
+				n := len(cur)
+				condImplies(iff.Cond, i == 0, 0, &cur)
+				walk(s)
+				cur = cur[:n]
+			}
+			return
+		}
+		for _, s := range b.Succs {
+			walk(s)
+		}
+	}
+	if len(fn.Blocks) > 0 {
+		walk(fn.Blocks[0])
+	}
+	return paths, ok
+}
+
+// ---------------------------------------------------------------------------
+// Feasible reachability: CFG reachability that follows what is known about nil-ness and boolean constants through
+// phi nodes, so that "the error branch" of a value that is merged and tested again (x, err := f(); if err != nil …
+// after f was inlined, or a result assigned on several paths and tested once) is not confused with the success branch.
+
+type vfact struct {
+	nilness int // 0 unknown, 1 nil, 2 non-nil
+	boolean int // 0 unknown, 1 false, 2 true
+}
+
+// feasiblyReaches reports whether target can be reached from block `from` (entered with the given facts) along a path
+// on which no branch contradicts the facts accumulated so far.
+func feasiblyReaches(from *ssa.BasicBlock, init map[ssa.Value]vfact, target *ssa.BasicBlock) bool {
+	type key struct {
+		b   *ssa.BasicBlock
+		sig string
+	}
+	seen := map[key]bool{}
+	sigOf := func(f map[ssa.Value]vfact) string {
+		var ks []string
+		for v, x := range f {
+			ks = append(ks, fmt.Sprintf("%p:%d%d", v, x.nilness, x.boolean))
+		}
+		sort.Strings(ks)
+		return strings.Join(ks, ",")
+	}
+	known := func(f map[ssa.Value]vfact, v ssa.Value) vfact {
+		if k, ok := v.(*ssa.Const); ok {
+			if k.Value == nil {
+				if isNilConst(v) {
+					return vfact{nilness: 1}
+				}
+				return vfact{}
+			}
+			switch k.Value.String() {
+			case "true":
+				return vfact{boolean: 2}
+			case "false":
+				return vfact{boolean: 1}
+			}
+			return vfact{}
+		}
+		switch x := v.(type) {
+		case *ssa.MakeInterface, *ssa.Alloc, *ssa.MakeClosure, *ssa.MakeSlice, *ssa.MakeMap, *ssa.MakeChan:
+			return vfact{nilness: 2}
+		case *ssa.ChangeInterface:
+			return f[x.X]
+		case *ssa.UnOp:
+			if x.Op == token.NOT {
+				in := f[x.X]
+				if in.boolean == 0 {
+					return f[v]
+				}
+				return vfact{boolean: 3 - in.boolean}
+			}
+		}
+		return f[v]
+	}
+	found := false
+	var walk func(b *ssa.BasicBlock, f map[ssa.Value]vfact, depth int)
+	walk = func(b *ssa.BasicBlock, f map[ssa.Value]vfact, depth int) {
+		if found || depth > 400 {
+			return
+		}
+		if b == target {
+			found = true
+			return
+		}
+		k := key{b, sigOf(f)}
+		if seen[k] {
+			return
+		}
+		seen[k] = true
+		next := func(s *ssa.BasicBlock, extra map[ssa.Value]vfact) {
+			nf := map[ssa.Value]vfact{}
+			for v, x := range f {
+				nf[v] = x
+			}
+			for v, x := range extra {
+				nf[v] = x
+			}
+			// phis of s take the value of the edge b→s
+			idx := -1
+			for i, p := range s.Preds {
+				if p == b {
+					idx = i
+				}
+			}
+			if idx >= 0 {
+				upd := map[ssa.Value]vfact{}
+				for _, in := range s.Instrs {
+					phi, ok := in.(*ssa.Phi)
+					if !ok {
+						break
+					}
+					upd[phi] = known(nf, phi.Edges[idx])
+				}
+				for v, x := range upd {
+					if x == (vfact{}) {
+						delete(nf, v)
+					} else {
+						nf[v] = x
+					}
+				}
+			}
+			walk(s, nf, depth+1)
+		}
+		last := b.Instrs[len(b.Instrs)-1]
+		iff, isIf := last.(*ssa.If)
+		if !isIf || len(b.Succs) != 2 {
+			for _, s := range b.Succs {
+				next(s, nil)
+			}
+			return
+		}
+		// outcome known?
+		cond := iff.Cond
+		kc := known(f, cond)
+		var tExtra, fExtra map[ssa.Value]vfact
+		if bo, ok := cond.(*ssa.BinOp); ok && (bo.Op == token.EQL || bo.Op == token.NEQ) {
+			x, y := bo.X, bo.Y
+			if isNilConst(x) {
+				x, y = y, x
+			}
+			if isNilConst(y) {
+				kx := known(f, x)
+				if kx.nilness != 0 {
+					isNil := kx.nilness == 1
+					if (bo.Op == token.EQL) == isNil {
+						kc = vfact{boolean: 2}
+					} else {
+						kc = vfact{boolean: 1}
+					}
+				} else {
+					nilF, nonNilF := map[ssa.Value]vfact{x: {nilness: 1}}, map[ssa.Value]vfact{x: {nilness: 2}}
+					if bo.Op == token.EQL {
+						tExtra, fExtra = nilF, nonNilF
+					} else {
+						tExtra, fExtra = nonNilF, nilF
+					}
+				}
+			}
+		}
+		if kc.boolean == 0 {
+			if tExtra == nil {
+				tExtra, fExtra = map[ssa.Value]vfact{}, map[ssa.Value]vfact{}
+			}
+			c0, neg := stripNot(cond)
+			tv, fv := vfact{boolean: 2}, vfact{boolean: 1}
+			if neg {
+				tv, fv = fv, tv
+			}
+			tExtra[c0], fExtra[c0] = tv, fv
+		}
+		if kc.boolean != 1 {
+			next(b.Succs[0], tExtra)
+		}
+		if kc.boolean != 2 {
+			next(b.Succs[1], fExtra)
+		}
+	}
+	f0 := map[ssa.Value]vfact{}
+	for v, x := range init {
+		f0[v] = x
+	}
+	walk(from, f0, 0)
+	return found
 }
